@@ -41,7 +41,7 @@ func init() {
 		ID:          "C34",
 		Explanation: "RD-inc: typestate of the published pending result over task.run and its deferred leader handler, per exit kind (return output / return nil / panic): every handler path must close output.done; paths that only un-publish or do neither are reported. RE-inc: hold accounting (held/free per Task variable, case-split on the async parameter) over Run, task.run, waitUntilDone and Resolve: every normal exit restores the entry state, acquire/release/transferFrom are never applied in the wrong state, unbalanced exits only follow a failed acquire. RC3: followers check for a cycle before sleeping. RF: every blocking select has a ctx.Done arm and every semaphore Acquire uses the run context. RG: executor goroutines only run done(t.run(…)); Execute runs under a deferred recover that cancels the Run with ErrPanic carrying the value.",
 		NotDecided:  "the content of the reported cycle; liveness of user code inside Execute",
-		Rules:       []func(*World){rdIncremental, reIncremental, rcIncremental, rfIncremental, rgIncremental},
+		Rules:       []func(*World){rdIncremental, reIncremental, rcIncremental, rfIncremental, rgIncremental, rc3bExhaustiveCycleSearch},
 	})
 	register(&Property{
 		ID:          "C35",
@@ -65,7 +65,7 @@ func init() {
 		ID:          "C27",
 		Explanation: "RNC: no function of the experimental descriptor generator (experimental/fdp) narrows or sign-converts a 32/64-bit integer without dominating range guards (a default or number rendered through the wrong signedness differs from the stable compiler). RDV: the function of experimental/fdp that assigns FieldDescriptorProto.DefaultValue must render float defaults with a bit size that depends on the field (a `float` default is a 32-bit value; the stable compiler prints its shortest float32 form) and must look up an enum default by the name written (the ir value keeps only the number, which aliases share). RSB: the stable and the experimental validator report a canonical enum-value-name conflict only at points reached with the two values' numbers known to differ (branch-sensitive dataflow), so aliases are accepted by both. RS: the accept flag of ir.(*Session).Lower is computed by a comparison of Diagnostic.Level() with constants which, evaluated over the whole Level domain with go/constant, clears ok exactly for {ICE, Error}.",
 		NotDecided:  "agreement of verdicts and descriptors between the two compilers (differential, value-level)",
-		Rules:       []func(*World){rsLower, rncFDP, rdvDefaultRendering, rsbEnumNameConflict},
+		Rules:       []func(*World){rsLower, rncFDP, rdvDefaultRendering, rsbEnumNameConflict, rfcFrameCountNotDropped},
 	})
 	register(&Property{
 		ID:          "C04",
